@@ -2,10 +2,13 @@ import CTV.Lemmas.Races
 /-! The invariant of the `GetSCTs` race model and its preservation by every action. -/
 namespace CTV.Model.Races
 
-/-- assumptions on one `GetSCTs` call: map keys (group names) are distinct; a session lists members of its group -/
+/-- assumptions on one `GetSCTs` call: map keys (group names) are distinct; a session lists distinct members of its
+group (`GetSubmissionSession` draws without replacement from the weights map) — the model keeps one goroutine state
+per (group, log) -/
 structure WF (r : Run) : Prop where
   names_nodup : (names r.cfg).Nodup
   session_sub : ∀ g ∈ r.cfg, ∀ l ∈ r.session g.name, l ∈ g.logs
+  session_nodup : ∀ g ∈ r.cfg, (r.session g.name).Nodup
 
 /-- SCTs held for group `g`: logs of `g` whose stored result carries an SCT -/
 def stored (c : Cfg) (sub : Sub) (g : Group) : Nat :=
